@@ -38,11 +38,22 @@ type TCase struct {
 
 type dom[E any] struct {
 	vals     []E
-	class    []int
+	class    []int // class[i]==class[j] iff vals[i]==vals[j] - except for the irreflexive values, which have a class of their own each (used by the harness's callbacks only)
 	id       func(E) string
 	poison   E // content of the spare capacity
 	scribble E // written over results, SafeGetOr fallback
+	// irrefl[i]: vals[i] != vals[i] (a NaN, or a struct/array/interface holding one): under == it is equal to nothing, as an
+	// element, as a probe, as an unwanted/excluded value and as a map key (every insertion makes a new entry that only range reaches).
+	irrefl []bool
+	// once[i]: an interface value whose dynamic type cannot be compared (a slice): == against values of OTHER dynamic types is
+	// false, == against itself panics (by the language). Such a value is used at most once per case (slice and list together) and never
+	// probed for while it is in the slice, so every == of the reference definition is defined; the helpers that hash their
+	// elements on the unchanged tree (Except, ExceptSet, GroupBy/CountBy keyed by the element, maps keyed by it) are left out while it is present.
+	once []bool
 }
+
+func (d dom[E]) isIrrefl(i int) bool { return d.irrefl != nil && d.irrefl[i] }
+func (d dom[E]) isOnce(i int) bool   { return d.once != nil && d.once[i] }
 
 type named[E any] []E
 type namedMap[K comparable, V any] map[K]V
@@ -106,8 +117,10 @@ func sliceID(x []int) string {
 }
 
 // typeNames in a fixed order, with the size of each domain.
-var typeNames = []string{"string", "float64", "struct", "array", "pointer", "any", "empty", "uint8", "shout", "slice", "any-noncomparable"}
-var typeSizes = map[string]int{"string": 7, "float64": 8, "struct": 6, "array": 6, "pointer": 6, "any": 11, "empty": 1, "uint8": 7, "shout": 5, "slice": 6, "any-noncomparable": 6}
+var typeNames = []string{"string", "float64", "struct", "array", "pointer", "any", "empty", "uint8", "shout", "slice", "any-noncomparable",
+	"float64-nan", "struct-nan", "any-nan", "any-one-unhashable", "cell-one-unhashable", "wide", "wide128"}
+var typeSizes = map[string]int{"string": 7, "float64": 8, "struct": 6, "array": 6, "pointer": 6, "any": 11, "empty": 1, "uint8": 7, "shout": 5, "slice": 6, "any-noncomparable": 6,
+	"float64-nan": 7, "struct-nan": 6, "any-nan": 11, "any-one-unhashable": 19, "cell-one-unhashable": 15, "wide": 6, "wide128": 5}
 
 func domString() dom[string] {
 	return dom[string]{
@@ -211,14 +224,113 @@ func domAnyNC() dom[any] {
 	}
 }
 
+// ---- third round: irreflexive values (NaN), interface values that cannot be hashed, wide elements
+
+func nanF64(payload uint64) float64 { return math.Float64frombits(0x7ff8000000000000 | payload) }
+func nanF32(payload uint32) float32 { return math.Float32frombits(0x7fc00000 | payload) }
+
+// domFloatNaN: three NaNs with different bits among ordinary values. The first three values (the ones the enumerator uses) are 1 and two NaNs.
+func domFloatNaN() dom[float64] {
+	return dom[float64]{
+		vals:   []float64{1, nanF64(1), nanF64(2), 0, negZero, math.Float64frombits(0xfff8000000000001), math.Inf(1)},
+		class:  []int{0, 1, 2, 3, 3, 4, 5},
+		irrefl: []bool{false, true, true, false, false, true, false},
+		id:     f64id, poison: -99.5, scribble: 7777.25,
+	}
+}
+
+// domStructNaN: structs that are irreflexive through a NaN field.
+func domStructNaN() dom[rec] {
+	nz := float32(math.Copysign(0, -1))
+	d := domStruct()
+	return dom[rec]{
+		vals:   []rec{{0, "", 0}, {1, "", nanF32(1)}, {1, "", nanF32(2)}, {0, "", nz}, {0, "x", nanF32(1)}, {2, "x", 1}},
+		class:  []int{0, 1, 2, 0, 3, 4},
+		irrefl: []bool{false, true, true, false, true, false},
+		id:     d.id, poison: d.poison, scribble: d.scribble,
+	}
+}
+
+// domAnyNaN: interface values holding NaNs (directly, in an array, in a struct) among ordinary ones.
+func domAnyNaN() dom[any] {
+	return dom[any]{
+		vals:   []any{0.0, nanF64(1), nanF64(2), negZero, 1, "1", nil, nanF32(1), [2]float64{nanF64(1), 1}, rec{1, "", nanF32(1)}, 2.5},
+		class:  []int{0, 1, 2, 0, 3, 4, 5, 6, 7, 8, 9},
+		irrefl: []bool{false, true, true, false, false, false, false, true, true, true, false},
+		id:     anyID, poison: "POISON", scribble: "SCRIBBLE",
+	}
+}
+
+// domAnyOnce: interface values of many hashable dynamic types and one that holds a slice (value number 1).
+func domAnyOnce() dom[any] {
+	d := dom[any]{
+		vals: []any{0, []int{9}, "keep", 1, 2.5, nil, 2, 3, 4, 5, 6, 7, 8, "x", int64(1), struct{}{}, [2]int{1, 2}, shout(1), uint8(1)},
+		id:   anyID, poison: "POISON", scribble: "SCRIBBLE",
+	}
+	d.once = make([]bool, len(d.vals))
+	d.once[1] = true
+	for i := range d.vals {
+		d.class = append(d.class, i)
+	}
+	return d
+}
+
+// cell is a struct with an interface field: comparable by the language, == panics only when both fields hold the same uncomparable dynamic type.
+type cell struct{ V any }
+
+func domCellOnce() dom[cell] {
+	d := dom[cell]{
+		vals: []cell{{0}, {[]int{9}}, {"keep"}, {0.0}, {negZero}, {1}, {nil}, {2}, {3}, {4}, {5}, {6}, {7}, {8}, {"x"}},
+		id:   func(c cell) string { return "cell{" + anyID(c.V) + "}" }, poison: cell{"POISON"}, scribble: cell{"SCRIBBLE"},
+	}
+	d.once = make([]bool, len(d.vals))
+	d.once[1] = true
+	d.class = []int{0, 1, 2, 3, 3, 4, 5, 6, 7, 8, 9, 10, 11, 12, 13}
+	return d
+}
+
+// wide is an element of 152 bytes (Go maps store keys and values of more than 128 bytes indirectly); wide128 is exactly 128 bytes.
+type wide struct {
+	Pad [15]int64
+	F   float64
+	K   int
+	S   string
+}
+type wide128 [16]int64
+
+func domWide() dom[wide] {
+	var p14, p0 [15]int64
+	p14[14], p0[0] = 1, -1
+	return dom[wide]{
+		vals:  []wide{{K: 0}, {K: 0, F: negZero}, {K: 1}, {Pad: p14}, {S: "x"}, {Pad: p0, S: "x"}},
+		class: []int{0, 0, 1, 2, 3, 4},
+		id: func(w wide) string {
+			return fmt.Sprint(w.Pad, w.K, strconv.Quote(w.S)) + f64id(w.F)
+		}, poison: wide{K: -99, S: "poison"}, scribble: wide{K: 7777, S: "scribble"},
+	}
+}
+
+func domWide128() dom[wide128] {
+	return dom[wide128]{
+		vals:  []wide128{{}, {0: 1}, {15: 1}, {8: -1}, {0: 1, 15: 1}},
+		class: []int{0, 1, 2, 3, 4},
+		id:    func(w wide128) string { return fmt.Sprint([16]int64(w)) }, poison: wide128{3: -99}, scribble: wide128{4: 7777},
+	}
+}
+
 const typedRule = "case = (element type, list of indices into that type's value domain, exclude/unwanted list, modulus m, MapErr failing call j, spare capacity); " +
 	"types: string, float64 (with +0/-0), struct{int;string;float32} and [2]float32 (with -0 fields), *int (several pointers to equal values, nil), " +
 	"any (0.0, -0.0, int 1, int64 1, \"1\", 1.0, nil, struct{}{}, a pointer, an array, a named int with methods), struct{} (zero size), uint8, a named int whose String/Error methods " +
-	"return a constant, and - only for the helpers with an `any` constraint - []int (nil, empty, equal contents in different arrays) and any holding slices/maps. " +
+	"return a constant, a struct of 152 bytes and an array of exactly 128 bytes; float64, the struct and any with NaNs of different bits (irreflexive under ==: equal to nothing as element, probe, " +
+	"unwanted/excluded value and map key, where every insertion is an entry of its own that only range reaches); any and struct{any} with 19/15 hashable values of many dynamic types and ONE value " +
+	"holding a slice (used at most once per case and not probed for while in the slice, so that every == of the definition is defined); " +
+	"and - only for the helpers with an `any` constraint - []int (nil, empty, equal contents in different arrays) and any holding slices/maps. " +
 	"The model works on indices and ==-classes; results are compared by a bit-exact identity (float bits, pointer, backing array), so first occurrences and member order are exact; " +
 	"group keys and map keys are compared with ==. Helpers: Fold, FoldReverse, Map, MapErr, Filter, Any, All, IndexFunc, Trim*Func, ContainsFunc, DistinctFunc, GroupBy/CountBy (int key), " +
 	"TryGet, SafeGet, SafeGetOr, Last, maps.Clone/Clear/Keys/Values/HasKey with the type as map value; for comparable types also Index, Contains, Distinct, Except, ExceptSet, " +
-	"Trim/TrimLeft/TrimRight, GroupBy/CountBy with the element as key, and maps.Clone/Clear/Keys/Values/HasKey/KeyOf/ContainsValue with the type as map key and as map value. " +
+	"Trim/TrimLeft/TrimRight (also with the slice itself as the unwanted list), GroupBy/CountBy with the element as key, and maps.Clone/Clear/Keys/Values/HasKey/KeyOf/ContainsValue with the type as map key " +
+	"(compared through sorted iteration, so entries with NaN keys count) and as map value. Left out because the unchanged tree deviates there (reported as findings, see the labels left-out:*): " +
+	"GroupBy/CountBy keyed by a NaN, maps.Clear of a map with NaN keys, Except/ExceptSet while a value that cannot be hashed is in the slice or the list. " +
 	"Inputs (incl. spare capacity) must be unchanged by identity after every call; every returned slice/map is overwritten (up to capacity) and the input compared again; Clone is never nil; " +
 	"non-trivial = at least 3 elements and two ==-equal elements"
 
@@ -227,8 +339,12 @@ type tstate[E any] struct {
 	c     TCase
 	n, m  int
 	idx   []int // the case's indices, reduced
-	cl    []int // their classes
+	cl    []int // their classes (as seen by the harness's callbacks: an irreflexive value has a class of its own)
+	eqc   []int // their classes under ==: the class, or - for an irreflexive value - a number that nothing else has (-(position+1))
 	set   []int // reduced exclude indices
+	// onceInS: the slice holds the value that must not be compared with itself; onceUsed: the slice or the list holds it;
+	// nanInS: the slice holds an irreflexive value
+	onceInS, onceUsed, nanInS bool
 	back  named[E]
 	s     named[E]
 	snap  []string
@@ -244,13 +360,33 @@ func newState[E any](c TCase, d dom[E]) *tstate[E] {
 	for i := len(d.vals) - 1; i >= 0; i-- { // the lowest index wins for values with identical identity
 		t.idOf[d.id(d.vals[i])] = i
 	}
-	for _, x := range c.S {
-		t.idx = append(t.idx, ((x%k)+k)%k)
+	// a once-value is kept at its first use (slice first, then list); later uses become value number 0
+	take := func(x int) int {
+		x = ((x % k) + k) % k
+		if d.isOnce(x) {
+			if t.onceUsed {
+				return 0
+			}
+			t.onceUsed = true
+		}
+		return x
 	}
+	for _, x := range c.S {
+		t.idx = append(t.idx, take(x))
+	}
+	t.onceInS = t.onceUsed
 	for _, x := range c.Set {
-		t.set = append(t.set, ((x%k)+k)%k)
+		t.set = append(t.set, take(x))
 	}
 	t.n = len(t.idx)
+	for pos, x := range t.idx {
+		if d.isIrrefl(x) {
+			t.nanInS = true
+			t.eqc = append(t.eqc, -(pos + 1))
+		} else {
+			t.eqc = append(t.eqc, d.class[x])
+		}
+	}
 	t.m = c.M
 	if t.m < 1 {
 		t.m = 1
@@ -274,6 +410,9 @@ func newState[E any](c TCase, d dom[E]) *tstate[E] {
 	var zero E
 	t.zeroE = d.id(zero)
 	t.desc = fmt.Sprintf("%s s=%v (= domain values number %v; domain: %v) spare=%d", c.Type, t.snap[:t.n], t.idx, t.domIDs(), len(t.back)-t.n)
+	if len(t.desc) > 1500 {
+		t.desc = fmt.Sprintf("%s s=%v (= domain values number %v, see the type's domain in types_test.go) spare=%d", c.Type, t.snap[:t.n], t.idx, len(t.back)-t.n)
+	}
 	return t
 }
 
@@ -295,7 +434,18 @@ func (t *tstate[E]) idsAt(ix []int) []string {
 	return r
 }
 
-// cls is the ==-class of a value handed to a callback (-1: not a value of the domain).
+// deq is the class of domain value i under ==: its class, or - irreflexive - a number that nothing has.
+func (t *tstate[E]) deq(i int) int {
+	if t.d.isIrrefl(i) {
+		return -1000000 - i
+	}
+	return t.d.class[i]
+}
+
+// probeOK: domain value i may be searched for in the slice with == (it is not the once-value while the slice holds it).
+func (t *tstate[E]) probeOK(i int) bool { return !(t.d.isOnce(i) && t.onceInS) }
+
+// cls is the class of a value handed to a callback (-1: not a value of the domain).
 func (t *tstate[E]) cls(e E) int {
 	if i, ok := t.idOf[t.d.id(e)]; ok {
 		return t.d.class[i]
@@ -679,14 +829,10 @@ func runAny[E any](t *tstate[E]) string {
 // runCmp runs the helpers that need a comparable element type.
 func runCmp[E comparable](t *tstate[E]) string {
 	d, n, s := t.d, t.n, t.s
-	classOfIdx := func(ix []int) []int {
-		var r []int
-		for _, x := range ix {
-			r = append(r, d.class[x])
-		}
-		return r
+	var setCl []int // ==-classes of the list's values
+	for _, x := range t.set {
+		setCl = append(setCl, t.deq(x))
 	}
-	setCl := classOfIdx(t.set)
 	set := make(named[E], len(t.set))
 	for i, x := range t.set {
 		set[i] = d.vals[x]
@@ -699,12 +845,18 @@ func runCmp[E comparable](t *tstate[E]) string {
 		return ""
 	}
 	setDesc := fmt.Sprint(setSnap)
+	if len(setSnap) > 12 {
+		setDesc = fmt.Sprintf("(%d values)%v", len(setSnap), setSnap)
+	}
 
 	// Index, Contains for every domain value
 	for i, v := range d.vals {
+		if !t.probeOK(i) {
+			continue
+		}
 		want := -1
 		for pos := n - 1; pos >= 0; pos-- {
-			if t.cl[pos] == d.class[i] {
+			if t.eqc[pos] == t.deq(i) {
 				want = pos
 			}
 		}
@@ -720,10 +872,10 @@ func runCmp[E comparable](t *tstate[E]) string {
 		return msg
 	}
 	// Distinct
-	var firstIdx, firstCl []int // first occurrence of every class, in order
+	var firstIdx, firstCl []int // first occurrence of every ==-class, in order (an irreflexive value is a class of its own every time)
 	for pos := 0; pos < n; pos++ {
-		if !has(firstCl, t.cl[pos]) {
-			firstCl = append(firstCl, t.cl[pos])
+		if !has(firstCl, t.eqc[pos]) {
+			firstCl = append(firstCl, t.eqc[pos])
 			firstIdx = append(firstIdx, t.idx[pos])
 		}
 	}
@@ -733,11 +885,11 @@ func runCmp[E comparable](t *tstate[E]) string {
 			return msg
 		}
 	}
-	// Except, ExceptSet
-	{
+	// Except, ExceptSet (they hash: left out while the value that cannot be hashed is around)
+	if !t.onceUsed {
 		var wantIdx []int
 		for pos := 0; pos < n; pos++ {
-			if !has(setCl, t.cl[pos]) {
+			if !has(setCl, t.eqc[pos]) {
 				wantIdx = append(wantIdx, t.idx[pos])
 			}
 		}
@@ -761,14 +913,16 @@ func runCmp[E comparable](t *tstate[E]) string {
 			return fmt.Sprintf("ExceptSet(s, set%s) (%s) changed the exclude set: %d elements, was %d", setDesc, t.desc, ex.Len(), exLen)
 		}
 		for i, v := range d.vals {
-			if ex.Has(v) != has(setCl, d.class[i]) {
+			if ex.Has(v) != (!d.isIrrefl(i) && has(setCl, t.deq(i))) { // an irreflexive value is never found
 				return fmt.Sprintf("ExceptSet(s, set%s) (%s) changed the exclude set: Has(%s)=%v", setDesc, t.desc, d.id(v), ex.Has(v))
 			}
 		}
+	} else {
+		t.out.Labels = append(t.out.Labels, "left-out:Except-with-unhashable-value")
 	}
 	// Trim, TrimLeft, TrimRight
 	{
-		lo, hi, lo2 := t.trimBounds(func(pos int) bool { return has(setCl, t.cl[pos]) })
+		lo, hi, lo2 := t.trimBounds(func(pos int) bool { return has(setCl, t.eqc[pos]) })
 		if msg := t.checkSub("Trim(s, "+setDesc+")", slices.Trim(s, set), lo, hi); msg != "" {
 			return msg
 		}
@@ -781,9 +935,32 @@ func runCmp[E comparable](t *tstate[E]) string {
 		if msg := setIntact("Trim"); msg != "" {
 			return msg
 		}
+		// the slice itself as the list of unwanted values (the same memory twice): everything reflexive is unwanted
+		lo, hi, lo2 = t.trimBounds(func(pos int) bool { return t.eqc[pos] >= 0 })
+		if !t.onceInS {
+			if msg := t.checkSub("Trim(s, s)", slices.Trim(s, s), lo, hi); msg != "" {
+				return msg
+			}
+			if msg := t.checkSub("TrimLeft(s, s)", slices.TrimLeft(s, s), lo2, n); msg != "" {
+				return msg
+			}
+			if msg := t.checkSub("TrimRight(s, s)", slices.TrimRight(s, s), 0, hi); msg != "" {
+				return msg
+			}
+		}
+		switch {
+		case len(set) > 64:
+			t.out.Labels = append(t.out.Labels, "unwanted-list>64")
+		case len(set) > 32:
+			t.out.Labels = append(t.out.Labels, "unwanted-list:33..64")
+		case len(set) > 16:
+			t.out.Labels = append(t.out.Labels, "unwanted-list:17..32")
+		case len(set) > 8:
+			t.out.Labels = append(t.out.Labels, "unwanted-list:9..16")
+		}
 	}
-	// GroupBy / CountBy with the element itself as key
-	{
+	// GroupBy / CountBy with the element itself as key (hashes; and a NaN key gives groups without members on the unchanged tree: left out)
+	if !t.onceInS && !t.nanInS {
 		members := map[int][]int{}
 		for pos := 0; pos < n; pos++ {
 			members[t.cl[pos]] = append(members[t.cl[pos]], t.idx[pos])
@@ -813,12 +990,49 @@ func runCmp[E comparable](t *tstate[E]) string {
 		if msg := t.intact("GroupBy/CountBy(s, v->v)"); msg != "" {
 			return msg
 		}
+	} else if t.nanInS {
+		t.out.Labels = append(t.out.Labels, "left-out:GroupBy-CountBy-keyed-by-NaN")
 	}
-	// maps with the type as KEY (element -> last position holding an ==-equal element)
-	{
-		lastPos := map[int]int{} // class -> last position
+	// maps with the type as KEY: element -> last position holding an ==-equal element; every irreflexive element is an entry of its
+	// own that only iteration reaches. The model is the sorted list of "key:value" strings, where a reflexive key is named by its
+	// class (which of two ==-equal keys with different bits the map keeps is not specified) and an irreflexive one by its bits.
+	if !t.onceInS {
+		lastPos := map[int]int{} // ==-class -> last position
+		nanEntries := 0
 		for pos := 0; pos < n; pos++ {
-			lastPos[t.cl[pos]] = pos
+			lastPos[t.eqc[pos]] = pos
+			if t.eqc[pos] < 0 {
+				nanEntries++
+			}
+		}
+		keyName := func(k E) string {
+			if k != k {
+				return "irreflexive " + d.id(k)
+			}
+			return "class " + strconv.Itoa(t.cls(k))
+		}
+		wantPairs := func(add int, withReflexive bool) []string {
+			var r []string
+			for pos := 0; pos < n; pos++ {
+				if lastPos[t.eqc[pos]] != pos {
+					continue
+				}
+				if t.eqc[pos] < 0 {
+					r = append(r, "irreflexive "+t.snap[pos]+":"+strconv.Itoa(pos))
+				} else if withReflexive {
+					r = append(r, "class "+strconv.Itoa(t.eqc[pos])+":"+strconv.Itoa(pos+add))
+				}
+			}
+			sort.Strings(r)
+			return r
+		}
+		pairsOf := func(x namedMap[E, int]) []string {
+			r := make([]string, 0, len(x))
+			for k, v := range x {
+				r = append(r, keyName(k)+":"+strconv.Itoa(v))
+			}
+			sort.Strings(r)
+			return r
 		}
 		build := func() namedMap[E, int] {
 			if n == 0 && t.c.Nil {
@@ -830,23 +1044,19 @@ func runCmp[E comparable](t *tstate[E]) string {
 			}
 			return mk
 		}
-		sameMK := func(x namedMap[E, int], add int) bool {
-			if len(x) != len(lastPos) {
-				return false
-			}
-			for i, v := range d.vals {
-				p, ok := x[v]
-				wp, wok := lastPos[d.class[i]]
-				if ok != wok || (ok && p != wp+add) {
-					return false
-				}
-			}
-			return true
-		}
 		mk := build()
+		want0 := wantPairs(0, true)
 		what := "map element->last position of " + t.desc
+		if nanEntries > 0 {
+			what = "map element->position (every irreflexive element is an entry of its own; the others: last position) of " + t.desc
+			t.out.Labels = append(t.out.Labels, "map-with-irreflexive-keys")
+		}
+		unchanged := func() bool { return eqStrs(pairsOf(mk), want0) && (mk == nil) == (n == 0 && t.c.Nil) }
 		for i, v := range d.vals {
-			_, want := lastPos[d.class[i]]
+			if d.isOnce(i) {
+				continue // cannot be hashed
+			}
+			_, want := lastPos[t.deq(i)]
 			t.out.Evals++
 			if got := maps.HasKey(mk, v); got != want {
 				return fmt.Sprintf("maps.HasKey(%s, %s) = %v, want %v", what, d.id(v), got, want)
@@ -854,73 +1064,91 @@ func runCmp[E comparable](t *tstate[E]) string {
 		}
 		keys := maps.Keys(mk)
 		t.out.Evals++
-		var keyCl []int
-		for _, k := range keys {
-			keyCl = append(keyCl, t.cls(k))
-		}
-		sort.Ints(keyCl)
-		wantCl := append([]int(nil), firstCl...)
-		sort.Ints(wantCl)
-		if !eqInts(keyCl, wantCl) {
-			return fmt.Sprintf("maps.Keys(%s) = %v: classes %v, want one key of each of the classes %v", what, t.ids(keys), keyCl, wantCl)
+		{
+			var gotK, wantK []string
+			for _, k := range keys {
+				gotK = append(gotK, keyName(k))
+			}
+			for _, p := range want0 {
+				wantK = append(wantK, p[:strings.LastIndexByte(p, ':')])
+			}
+			sort.Strings(gotK)
+			sort.Strings(wantK)
+			if !eqStrs(gotK, wantK) {
+				return fmt.Sprintf("maps.Keys(%s) = %v: that is %v, want one key of each of %v", what, t.ids(keys), gotK, wantK)
+			}
 		}
 		vals := maps.Values(mk)
 		t.out.Evals++
 		sort.Ints(vals)
 		var wantVals []int
-		for _, p := range lastPos {
-			wantVals = append(wantVals, p)
+		for pos := 0; pos < n; pos++ {
+			if lastPos[t.eqc[pos]] == pos {
+				wantVals = append(wantVals, pos)
+			}
 		}
-		sort.Ints(wantVals)
 		if !eqInts(vals, wantVals) {
 			return fmt.Sprintf("maps.Values(%s) = %v (sorted), want %v", what, vals, wantVals)
 		}
 		for p := -1; p <= n; p++ {
-			wantFound := false
-			for _, lp := range lastPos {
-				if lp == p {
-					wantFound = true
-				}
-			}
+			wantFound := p >= 0 && p < n && lastPos[t.eqc[p]] == p
 			t.out.Evals += 2
 			if got := maps.ContainsValue(mk, p); got != wantFound {
 				return fmt.Sprintf("maps.ContainsValue(%s, %d) = %v, want %v", what, p, got, wantFound)
 			}
 			k, ok := maps.KeyOf(mk, p)
-			if lp, in := lastPos[t.cls(k)]; ok != wantFound || (ok && (!in || lp != p)) {
-				return fmt.Sprintf("maps.KeyOf(%s, %d) = (%s, %v), want found=%v and a key holding %d", what, p, d.id(k), ok, wantFound, p)
+			good := ok == wantFound
+			if good && ok {
+				if k != k {
+					good = t.eqc[p] < 0 && d.id(k) == t.snap[p]
+				} else {
+					good = t.eqc[p] >= 0 && t.cls(k) == t.eqc[p]
+				}
+			}
+			if !good {
+				return fmt.Sprintf("maps.KeyOf(%s, %d) = (%s, %v), want found=%v and the key holding %d", what, p, d.id(k), ok, wantFound, p)
 			}
 		}
 		var cl namedMap[E, int] = maps.Clone(mk)
 		t.out.Evals++
-		if !sameMK(cl, 0) || cl == nil {
-			return fmt.Sprintf("maps.Clone(%s): the clone (nil: %v, %d entries) is not a new equal map", what, cl == nil, len(cl))
+		if got := pairsOf(cl); !eqStrs(got, want0) || cl == nil {
+			return fmt.Sprintf("maps.Clone(%s): the clone (nil: %v, %d entries) is not a new equal map: it holds %v, want %v", what, cl == nil, len(cl), got, want0)
 		}
 		var bumped []int
 		for i, v := range d.vals {
+			if d.isOnce(i) || d.isIrrefl(i) {
+				continue
+			}
 			if _, ok := cl[v]; ok && !has(bumped, d.class[i]) {
 				bumped = append(bumped, d.class[i])
 				cl[v] += 100
 			}
 		}
-		if !sameMK(cl, 100) || !sameMK(mk, 0) {
-			return fmt.Sprintf("maps.Clone(%s): after adding 100 to every value of the clone, the clone is wrong or the original changed", what)
+		if !eqStrs(pairsOf(cl), wantPairs(100, true)) || !unchanged() {
+			return fmt.Sprintf("maps.Clone(%s): after adding 100 to every value of the clone (reflexive keys), the clone is wrong or the original changed: clone %v, original %v", what, pairsOf(cl), pairsOf(mk))
 		}
-		for _, v := range d.vals {
-			delete(cl, v)
+		for i, v := range d.vals {
+			if !d.isOnce(i) {
+				delete(cl, v)
+			}
 		}
 		cl[d.scribble] = 1
-		if len(cl) != 1 || !sameMK(mk, 0) {
-			return fmt.Sprintf("maps.Clone(%s): after deleting every key from the clone and adding one, the clone has %d entries / the original changed", what, len(cl))
+		if len(cl) != 1+nanEntries || !unchanged() {
+			return fmt.Sprintf("maps.Clone(%s): after deleting every reflexive key from the clone and adding one, the clone has %d entries (want %d) / the original changed: %v", what, len(cl), 1+nanEntries, pairsOf(mk))
 		}
-		twin := build()
-		maps.Clear(twin)
-		t.out.Evals++
-		if len(twin) != 0 || (twin == nil) != (n == 0 && t.c.Nil) {
-			return fmt.Sprintf("maps.Clear(%s) left %d entries", what, len(twin))
+		// Clear: a map with irreflexive keys is not emptied by the unchanged tree (delete cannot reach them): left out
+		if nanEntries == 0 {
+			twin := build()
+			maps.Clear(twin)
+			t.out.Evals++
+			if len(twin) != 0 || (twin == nil) != (n == 0 && t.c.Nil) {
+				return fmt.Sprintf("maps.Clear(%s) left %d entries", what, len(twin))
+			}
+		} else {
+			t.out.Labels = append(t.out.Labels, "left-out:Clear-of-map-with-NaN-keys")
 		}
-		if !sameMK(mk, 0) || (mk == nil) != (n == 0 && t.c.Nil) {
-			return fmt.Sprintf("a maps helper modified its input (%s)", what)
+		if !unchanged() {
+			return fmt.Sprintf("a maps helper modified its input (%s): now %v", what, pairsOf(mk))
 		}
 	}
 	// maps with the type as comparable VALUE (position -> element): ContainsValue, KeyOf
@@ -931,13 +1159,16 @@ func runCmp[E comparable](t *tstate[E]) string {
 		}
 		what := "map position->element of " + t.desc
 		for i, v := range d.vals {
-			want := has(t.cl, d.class[i])
+			if !t.probeOK(i) {
+				continue
+			}
+			want := has(t.eqc, t.deq(i))
 			t.out.Evals += 2
 			if got := maps.ContainsValue(mv, v); got != want {
 				return fmt.Sprintf("maps.ContainsValue(%s, %s) = %v, want %v", what, d.id(v), got, want)
 			}
 			k, ok := maps.KeyOf(mv, v)
-			if ok != want || (ok && (k < 0 || k >= n || t.cl[k] != d.class[i])) {
+			if ok != want || (ok && (k < 0 || k >= n || t.eqc[k] != t.deq(i))) {
 				return fmt.Sprintf("maps.KeyOf(%s, %s) = (%d, %v), want found=%v and a position holding an equal element", what, d.id(v), k, ok, want)
 			}
 		}
@@ -1027,6 +1258,20 @@ func RunTyped(c TCase) pbt.Outcome {
 		return typedCmp(c, domUint8())
 	case "shout":
 		return typedCmp(c, domShout())
+	case "float64-nan":
+		return typedCmp(c, domFloatNaN())
+	case "struct-nan":
+		return typedCmp(c, domStructNaN())
+	case "any-nan":
+		return typedCmp(c, domAnyNaN())
+	case "any-one-unhashable":
+		return typedCmp(c, domAnyOnce())
+	case "cell-one-unhashable":
+		return typedCmp(c, domCellOnce())
+	case "wide":
+		return typedCmp(c, domWide())
+	case "wide128":
+		return typedCmp(c, domWide128())
 	case "slice":
 		return typedAny(c, domSlice())
 	case "any-noncomparable":
@@ -1035,11 +1280,40 @@ func RunTyped(c TCase) pbt.Outcome {
 	return pbt.Outcome{Skipped: true, Labels: []string{"unknown-type:" + strings.ToLower(c.Type)}}
 }
 
+// longListCases: lists of 9, 10, 17, 33 and 65 unwanted/excluded values (with repetitions: the domains are small) drawn from the
+// whole domain with a stride, against short slices that start and end with listed and with unlisted values.
+func longListCases(ty string, yield func(TCase) bool) bool {
+	k := typeSizes[ty]
+	for _, l := range []int{9, 10, 17, 33, 65} {
+		for a := 0; a < k; a++ {
+			stride := 1 + (a+l)%2
+			set := make([]int, l)
+			for j := range set {
+				set[j] = (a + j*stride) % k
+				if j >= k/2 && stride == 1 { // only half of the domain is listed
+					set[j] = (a + j%(k/2+1)) % k
+				}
+			}
+			s := []int{a, a + 1, a + k/2 + 1, a + 2, a, a + k - 1}
+			if a%3 == 2 {
+				s = s[:a%5]
+			}
+			c := TCase{Type: ty, S: s, Set: set, M: 1 + a%3, J: len(s), Spare: a % 3}
+			if !yield(c) {
+				return false
+			}
+		}
+	}
+	return true
+}
+
 var specTypes = pbt.Register(&pbt.Spec[TCase]{
 	Property: "C14", Name: "C14.types",
-	Rule: "enumerated: for every type, every index sequence of length 0..4 over the first three domain values (the first two are ==-equal with different bits where the type has such a pair) " +
-		"x every subset of them as exclude/unwanted list x m in {1,2}, j = length/2, spare = length%3; rapid: type drawn, length 0..10 (size classes 0/3/8) over the whole domain, " +
-		"exclude list 0..3 values (often the slice's end values), m 1..4, j 0..n+1, spare 0..3; " + typedRule,
+	Rule: "enumerated: for every type, every index sequence of length 0..4 over the first three domain values (the first two are ==-equal with different bits where the type has such a pair; " +
+		"for the NaN types they are an ordinary value and two NaNs, for the one-unhashable types an ordinary value, the value holding a slice and another ordinary value) " +
+		"x every subset of them as exclude/unwanted list x m in {1,2}, j = length/2, spare = length%3; then for every type lists of 9, 10, 17, 33 and 65 unwanted/excluded values " +
+		"(strided through the domain, from every starting value) against slices of 0..6 elements; rapid: type drawn, length 0..10 (size classes 0/3/8) over the whole domain, " +
+		"exclude list 0..3 values or (one case in three) 9..72 values, often plus the slice's end values, m 1..4, j 0..n+1, spare 0..3; " + typedRule,
 	Enum: func(shard, shards int, tier string, yield func(TCase) bool) {
 		for _, ty := range typeNames {
 			ok := enumSlices(3, 4, func(s []int) bool {
@@ -1062,7 +1336,7 @@ var specTypes = pbt.Register(&pbt.Spec[TCase]{
 				}
 				return true
 			})
-			if !ok {
+			if !ok || !longListCases(ty, yield) {
 				return
 			}
 		}
@@ -1074,7 +1348,10 @@ var specTypes = pbt.Register(&pbt.Spec[TCase]{
 		if len(s) > 12 {
 			s = s[:12]
 		}
-		set := rapid.SliceOfN(rapid.IntRange(0, k-1), 0, 3).Draw(t, "set")
+		set := pbt.OpsOf(t, rapid.IntRange(0, k-1), []int{0, 0, 0, 0, 9, 33}, "set")
+		if len(set) > 3 && len(set) < 9 {
+			set = set[:3]
+		}
 		if n := len(s); n > 0 {
 			switch rapid.IntRange(0, 3).Draw(t, "setEnds") {
 			case 1:
@@ -1094,7 +1371,7 @@ var specTypes = pbt.Register(&pbt.Spec[TCase]{
 		return TCase{Type: ty, S: s, Set: set, M: rapid.IntRange(1, 4).Draw(t, "m"), J: rapid.IntRange(0, len(s)+1).Draw(t, "j"),
 			Spare: rapid.IntRange(0, 3).Draw(t, "spare"), Nil: rapid.Bool().Draw(t, "nil")}
 	},
-	Run: RunTyped, Quick: 5000, Thorough: 40000,
+	Run: RunTyped, Quick: 5000, Thorough: 40000, Replicas: 4, ReplicaEvery: 8,
 })
 
 func TestC14Types(t *testing.T) { pbt.Check(t, specTypes) }
